@@ -48,6 +48,11 @@ def check(repo: Repo) -> Result:
     from rules.common import share
 
     share(res, r5, "C13", lambda t: c13.ownership(repo, t), ["C13-R1"], want=lambda k: k == "pickle:complete-table")
+
+    from rules import c02
+
+    r6 = res.rule("C20-R6", "the printed expression of a power denotes the unit that carries it: expression, scale and dimension of u**p are built from the same exponent (shared with C02-R3)", floor=3)
+    share(res, r6, "C02", lambda t: c02.homomorphism(repo, t), ["C02-R3"], want=lambda k: k.startswith("__pow__:") or k.startswith("walk:"), min_keys=3)
     return res
 
 
@@ -460,4 +465,5 @@ MUTANTS = [
     Mutant("header-joined-by-space", ARR, "savetxt", '"\\t".join(units)', '" ".join(units)', (), benign=True),
     Mutant("header-without-blanks", ARR, "savetxt", 'header += " Units\\n " + ', 'header += "Units\\n" + ', ("C20-R4",)),
     Mutant("bypass-branch-text-with-values", ARR, "unyt_array.__new__", "                    input_units.expr,\n", "                    str(input_units),\n", ("C20-R5",)),
+    Mutant("pow-scale-from-unrounded-exponent", UO, "Unit.__pow__", "base_value=(self.base_value**p)", "base_value=(self.base_value ** (2 * p))", ("C20-R6",)),
 ]
